@@ -421,8 +421,8 @@ namespace StepupModel.K
 /-! ### Completion, cleanup and startup requests -/
 
 theorem filesOK_dropDynamicInputs (s : KState) (k : Key) (hp : FilesOK s) : FilesOK (s.dropDynamicInputs k) := by
-  unfold KState.dropDynamicInputs
-  exact filesOK_modify _ _ _ (fun _ h => h) (filesOK_deleteDeps s _ hp)
+  unfold KState.dropDynamicInputs KState.flagDynamicSuppliers
+  exact filesOK_modify _ _ _ (fun _ h => h) (filesOK_deleteDeps _ _ (filesOK_modifyWhere _ _ _ (fun _ h => h) hp))
 
 theorem dropDynamicSink_preserves (step k : Key) : Preserves FilesOK (fun s => s.dropDynamicSink step k) := by
   intro s s' hp h
